@@ -243,11 +243,7 @@ GRAM = VOL + ["geometry::util::measures::simplex_volume_gram_matrix", "geometry:
 h("C18", "c18", "c18_volume_4d_degenerate_g2_fixed3", "thorough", 4000,
   "simplex_volume D=4 (Gram/LDLT path): vertices 0..2 fixed on the unit frame, vertices 3 and 4 all integer points of [-2,2]^4, "
   "restricted to EXACTLY degenerate simplices (exact 5x5 determinant = 0): result must be Err (verdict only, no value claim)", GRAM)
-h("C18", "c18", "c18_volume_4d_degenerate_g1_fixed1", "thorough", 8000,
-  "simplex_volume D=4 (Gram/LDLT path): vertex 0 at the origin, vertices 1..4 all points of {-1,0,1}^4, restricted to EXACTLY "
-  "degenerate simplices: result must be Err", GRAM)
 h("C18", "c18", "c18_volume_3d_g1", "quick", 1500, f"simplex_volume D=3, all 3^12 quadruples of points in {{-1,0,1}}^3: {VOLLAW}", VOL)
-h("C18", "c18", "c18_volume_3d_g2", "thorough", 10000, f"simplex_volume D=3, all 5^12 quadruples of points in [-2,2]^3: {VOLLAW}", VOL)
 h(["C18", "C19"], "c18", "c18_volume_2d_wrong_arity", "quick", 300,
   "simplex_volume D=2 with any slice length 0..=5: Ok iff exactly 3 points, never a panic", VOL)
 CC = ["geometry::util::circumsphere::circumcenter (la-stack LU solve, zero-tolerance fallback)"]
@@ -260,11 +256,12 @@ h("C18", "c18", "c18_circumcenter_degenerate_2d_g2", "thorough", 3000,
 h("C18", "c18", "c18_circumcenter_value_2d_g2", "thorough", 6000,
   "circumcenter D=2, all non-collinear triples of integer points in [-2,2]^2: Ok(C) with C = exact rational circumcentre "
   "(checked as C*d = integer numerator, d = 2*det, relative 1e-9)", CC)
-h("C18", "c18", "c18_circumcenter_translation_2d", "thorough", 8000,
-  "circumcenter D=2 translation invariance: non-degenerate triangle in [-2,2]^2 translated by (m0,m1)*2^k, m in [-3,3], "
-  "k symbolic in 0..=44: C(p+t) = C(p)+t within 2^-48|t| + 2^-30", CC)
+for k in (30, 44):
+    h("C18", "c18", f"c18_circumcenter_translation_2d_k{k}", "thorough", 9000,
+      f"circumcenter D=2 translation invariance: non-degenerate triangle in [-2,2]^2 translated by (m0,m1)*2^{k}, m in [-3,3]: "
+      "C(p+t) = C(p)+t within 2^-48|t| + 2^-30", CC, mem_gb=24)
 PROP_ASSUMPTIONS["C18"] = [
-    "volume value claims only for D <= 3 (closed-form branches); for D = 4 only the degenerate => Err verdict; facet measure, circumcentre, circumradius, inradius and the quality ratios "
+    "volume value claims only for D <= 3 (closed-form branches); for D = 4 only the degenerate => Err verdict; circumcentre D = 2; facet measure, circumradius, inradius and the quality ratios "
     "reach sqrt/hypot (Kani's sqrt model is unfaithful, hypot is FFI) and D >= 4 uses Gram/LDLT: outside the claim",
     "volumes below the library's documented absolute degeneracy threshold 1e-12 are not demanded",
 ]
@@ -392,11 +389,12 @@ for nm, strat, tier, to in [("lex", "Lexicographic", "quick", 900), ("morton", "
           f"{strat} ordering, n=3 vertices, D=2, ALL integer coordinates in [-2,2], input list with {gtxt} (the two "
           "transpositions generate S3, so invariance under both = invariance under every permutation): identical ordered "
           "coordinate sequence; with pairwise distinct coordinates identical vertex (UUID) sequence",
-          ORD + [f"core::delaunay_triangulation::order_vertices_{nm if nm != 'lex' else 'lexicographic'}"])
+          ORD + [f"core::delaunay_triangulation::order_vertices_{nm if nm != 'lex' else 'lexicographic'}"],
+          mem_gb=(30 if nm == "hilbert" else 10))
         h("C14", "c14", f"c14_order_independent_{nm}_cluster_n3_{g}", tier, to,
           f"{strat} ordering on a CLUSTER: frame vertex (-2,2) plus two vertices with coordinates in {{0,1,2,3}}*2^-40 (same "
           f"Hilbert/Morton cell), D=2, input list with {gtxt}: identical ordered sequence (coordinates; vertices when the two "
-          "cluster points differ)", ORD)
+          "cluster points differ)", ORD, mem_gb=(30 if nm == "hilbert" else 10))
 h("C14", "c14", "c14_order_deterministic_n3", "quick", 2400,
   "Input/Lexicographic ordering applied twice to the same n=3 input (D=2, coordinates in [-2,2]): identical sequences", ORD)
 PROP_ASSUMPTIONS["C14"] = [
